@@ -1,7 +1,7 @@
 \* X07 thorough: environment, all values
 SPECIFICATION Spec
 CONSTANTS
-  EnvOmp = {0, 1, 3}
+  EnvOmp = {0, 3}
   Cores = {1, 2, 4}
   Slurm = {0, 8}
   PutVals = {1}
@@ -30,6 +30,7 @@ PROPERTY StopSticky
 PROPERTY DoneIsFinal
 PROPERTY RaiseStops
 PROPERTY FlagPerProcess
+PROPERTY PbpOneThread
 ACTION_CONSTRAINT EmitTransition
 VIEW View
 CHECK_DEADLOCK FALSE
